@@ -1,5 +1,6 @@
 import Driver.CdrFileIO
 import ChfVerif.Model.Ber
+import ChfVerif.Spec.X690
 /-
   line protocol of the `ber` stream.  Notation (shared with harness/cmd/ber.go):
     types:  b | i64 | i32 | e | o | B | n | O | s12 s22 s25 | P<t> | L<t> | W<t> | C[f;f] | S[f;f] | U
@@ -161,6 +162,18 @@ def sRes (r : Res String) : String :=
   | .panic => "panic"
 
 def berOp : Tok → String
+  | ["wf", hx] =>
+    (match hexCs hx.toList with
+     | some b => if X690.wellFormed b then "ok" else "bad"
+     | none => "bad-hex")
+  | "spec" :: ty :: params :: rest =>
+    let arg := match rest with | a :: _ => a | [] => ""
+    (match pTy (ty.length + 1) ty.toList, pParams params.toList, pVal (arg.length + 1) arg.toList with
+     | some (t, []), some (p, []), some (v, []) =>
+       (match X690.encode t p v with
+        | some b => "ok " ++ hexRaw b
+        | none => "none")
+     | _, _, _ => "bad-op")
   | kind :: ty :: params :: rest =>
     let arg := match rest with | a :: _ => a | [] => ""
     (match pTy (ty.length + 1) ty.toList, pParams params.toList with
